@@ -172,6 +172,7 @@ theorem owed_handleRcpt (s : S) (arg : Bytes) : owed (handleRcpt s arg) = nw s +
 @[simp] theorem nw_popData (s : S) : nw (popData s).2 = nw s := by unfold popData; split <;> rfl
 @[simp] theorem nw_setW (s : S) (w : W) : nw (setW s w) = nw s := rfl
 @[simp] theorem nw_setLimit (s : S) (n : Nat) : nw (setLimit s n) = nw s := rfl
+@[simp] theorem nw_armLimit (s : S) : nw (armLimit s) = nw s := rfl
 @[simp] theorem nw_addBytesReceived (s : S) (n : Nat) : nw (addBytesReceived s n) = nw s := rfl
 @[simp] theorem nw_discardChunkN (s : S) (sz : Option Nat) : nw (discardChunkN s sz) = nw s := by
   unfold discardChunkN; split <;> rfl
@@ -313,7 +314,7 @@ theorem bdatBegin_cfg (s : S) : (bdatBegin s).1.cfg = s.cfg := by
 theorem owed_bdatFail (s : S) (k left : Nat) (last : Bool) (err : BRes) (hl : s.cfg.lmtp = false) :
     owed (bdatFail s k left last err) = nw s + 1 := by
   unfold bdatFail
-  simp only [owed_false, nw_setLimit, nw_resetConn]
+  simp only [owed_false, nw_armLimit, nw_resetConn]
   have h1 : nw (bdatFailReplies (setW s (discardN (wireFuel s.w) s.w left)) k last err) = nw s + 1 := by
     unfold bdatFailReplies
     have : (setW s (discardN (wireFuel s.w) s.w left)).cfg.lmtp = false := hl
@@ -621,7 +622,7 @@ def chunkReplies (s : S) (last : Bool) : Nat := if last then s.c.recipients.leng
 theorem owed_bdatFail_lmtp (s : S) (k left : Nat) (last : Bool) (err : BRes) (hl : s.cfg.lmtp = true) :
     owed (bdatFail s k left last err) = nw s + chunkReplies s last := by
   unfold bdatFail chunkReplies
-  simp only [owed_false, nw_setLimit, nw_resetConn]
+  simp only [owed_false, nw_armLimit, nw_resetConn]
   have h1 : nw (bdatFailReplies (setW s (discardN (wireFuel s.w) s.w left)) k last err) =
       nw s + (if last then s.c.recipients.length else 1) := by
     unfold bdatFailReplies
